@@ -53,6 +53,68 @@ Definition islive (ck : cookie) : Prop := match ck with CkLive _ => True | _ => 
 Lemma lastl_app a x y : lastl a (x ++ y) = lastl (lastl a x) y.
 Proof. apply fold_left_app. Qed.
 
+(* the live cookies of a list that carry an ID not drawn before the n-th draw *)
+Definition flv (n : N) (cks : list cookie) : list N :=
+  flat_map (fun ck => match ck with CkLive (KGen m) => if (n <=? m)%N then [m] else [] | _ => [] end) cks.
+
+Fixpoint nseq (n : N) (c : nat) : list N :=
+  match c with O => [] | S c' => n :: nseq (n + 1) c' end.
+
+Lemma flv_app n a b : flv n (a ++ b) = flv n a ++ flv n b.
+Proof. apply flat_map_app. Qed.
+
+Lemma flv_ge n n' l : (n <= n')%N -> (forall m, In (CkLive (KGen m)) l -> (n' <= m)%N) -> flv n l = flv n' l.
+Proof.
+  intros Hle. induction l as [|ck t IH]; intro H; [reflexivity|]. cbn [flv flat_map]. fold (flv n t). fold (flv n' t).
+  rewrite IH by (intros m Hm; apply H; right; exact Hm). f_equal.
+  destruct ck as [[m|m]| |x]; try reflexivity. pose proof (H m (or_introl eq_refl)) as Hm.
+  destruct (N.leb_spec n m), (N.leb_spec n' m); try reflexivity; lia.
+Qed.
+
+Lemma nseq_app n c1 c2 : nseq n (c1 + c2) = nseq n c1 ++ nseq (n + N.of_nat c1) c2.
+Proof.
+  revert n. induction c1 as [|c1 IH]; intro n; cbn [nseq plus app]; [rewrite N.add_0_r; reflexivity|].
+  rewrite IH. replace (n + N.of_nat (S c1))%N with (n + 1 + N.of_nat c1)%N by lia. reflexivity.
+Qed.
+
+(* the cookies added to pre between s and s': no ID was drawn and no live cookie
+   carries an undrawn ID, or exactly one ID was drawn and exactly one live cookie
+   carries it *)
+Definition cr (s s' : st) (pre cks : list cookie) : Prop :=
+  exists mid, cks = pre ++ mid /\
+    ((supply s' = supply s /\ flv (supply s) mid = []) \/
+     (supply s' = (supply s + 1)%N /\ flv (supply s) mid = [supply s])).
+
+Lemma cr_same s s' pre : supply s' = supply s -> cr s s' pre pre.
+Proof. intro H. exists []. split; [rewrite app_nil_r; reflexivity | left; auto]. Qed.
+
+Lemma cr_del s s' pre : supply s' = supply s -> cr s s' pre (pre ++ [CkDelete]).
+Proof. intro H. exists [CkDelete]. split; [reflexivity | left; auto]. Qed.
+
+Lemma cr_old s s' pre k : supply s' = supply s -> key_drawn s k -> cr s s' pre (pre ++ [CkLive k]).
+Proof.
+  intros H Hk. exists [CkLive k]. split; [reflexivity|]. left. split; [exact H|]. cbn [flv flat_map app].
+  destruct k as [m|m]; [|reflexivity]. cbn [key_drawn] in Hk. destruct (N.leb_spec (supply s) m); [lia | reflexivity].
+Qed.
+
+Lemma cr_new s s' pre : supply s' = (supply s + 1)%N -> cr s s' pre (pre ++ [CkLive (KGen (supply s))]).
+Proof.
+  intro H. exists [CkLive (KGen (supply s))]. split; [reflexivity|]. right. split; [exact H|].
+  cbn [flv flat_map app]. rewrite N.leb_refl. reflexivity.
+Qed.
+
+Lemma cr_delnew s s' pre : supply s' = (supply s + 1)%N -> cr s s' pre (pre ++ [CkDelete; CkLive (KGen (supply s))]).
+Proof.
+  intro H. exists [CkDelete; CkLive (KGen (supply s))]. split; [reflexivity|]. right. split; [exact H|].
+  cbn [flv flat_map app]. rewrite N.leb_refl. reflexivity.
+Qed.
+
+Lemma cr_shift s s1 s' pre cks : supply s1 = supply s -> cr s1 s' pre cks -> cr s s' pre cks.
+Proof. intros E (mid & Hc & H). exists mid. split; [exact Hc|]. rewrite E in H. exact H. Qed.
+
+Lemma hupd_supply s o f : supply (hupd s o f) = supply s.
+Proof. unfold hupd. destruct (hget s o); reflexivity. Qed.
+
 Lemma hupd_plan s o f : plan (hupd s o f) = plan s.
 Proof. unfold hupd. destruct (hget s o); reflexivity. Qed.
 
@@ -76,25 +138,25 @@ Section Rider.
 
   Lemma created_G base s q : G base s ->
     G base (created s q) /\ nc s (created s q) /\ hg (created s q) (length (heap s)) /\
-    hid (created s q) (length (heap s)) = Some (KGen (supply s)).
+    hid (created s q) (length (heap s)) = Some (KGen (supply s)) /\ supply (created s q) = (supply s + 1)%N.
   Proof.
     intros (I & K & P & Hq). destruct (created_eff _ _ _ _ q I K P) as (K' & P' & E & _ & Hh).
     destruct (created_inv _ _ _ _ q I) as [I' _].
     split; [split; [exact I' | split; [exact K' | split; [exact P' | eapply Q_new; eassumption]]]|].
     split; [split; [exact (en_now _ _ _ E) | exact (en_conf _ _ _ E)]|]. split; [exact Hh|].
-    unfold hid. rewrite (created_handle s q (inv_ffnd _ _ _ _ _ I)). reflexivity.
+    split; [unfold hid; rewrite (created_handle s q (inv_ffnd _ _ _ _ _ I)); reflexivity | exact (en_supply _ _ _ E)].
   Qed.
 
   Lemma regen_G base s o ob : G base s -> hget s o = Some ob -> hg s o ->
     G base (regen s o ob) /\ nc s (regen s o ob) /\ hg (regen s o ob) o /\
-    hid (regen s o ob) o = Some (KGen (supply s)).
+    hid (regen s o ob) o = Some (KGen (supply s)) /\ supply (regen s o ob) = (supply s + 1)%N.
   Proof.
     intros (I & K & P & Hq) Ho Hh.
     destruct (regen_eff _ _ _ _ _ _ I K P Ho (Nat.le_0_l o) (fun x => x) Hh) as (K' & P' & E & Hh').
     pose proof (regen_inv _ _ _ _ _ _ I Ho (Nat.le_0_l o) (fun x => x)) as I'.
     split; [split; [exact I' | split; [exact K' | split; [exact P' | eapply Q_repl; eassumption]]]|].
     split; [split; [exact (er_now _ _ _ E) | exact (er_conf _ _ _ E)]|]. split; [exact Hh'|].
-    unfold hid. rewrite (regen_handle s o ob (inv_ffnd _ _ _ _ _ I) Ho). reflexivity.
+    split; [unfold hid; rewrite (regen_handle s o ob (inv_ffnd _ _ _ _ _ I) Ho); reflexivity | exact (er_supply _ _ _ E)].
   Qed.
 
   Lemma cdel_G base s k : G base s -> DEL s k ->
@@ -132,14 +194,15 @@ Section Rider.
 
   Lemma start_none_G base s q cks : G base s ->
     exists s' res cks', start_none s q cks = (s', res, cks') /\ G base s' /\ nc s s' /\
-      sres_ok s' res (fun k => cks' = cks ++ [CkLive k]).
+      sres_ok s' res (fun k => cks' = cks ++ [CkLive k]) /\ cr s s' cks cks'.
   Proof.
     intros Hg. unfold start_none. destruct (q_create q).
     - rewrite create_session_ff by (eapply inv_ffnd; apply Hg).
-      destruct (created_G _ _ q Hg) as (G' & N' & H' & Hi'). do 3 eexists. split; [reflexivity|].
-      split; [exact G'|]. split; [exact N'|]. intros o E. injection E as <-. split; [exact H'|].
+      destruct (created_G _ _ q Hg) as (G' & N' & H' & Hi' & Hsu). do 3 eexists. split; [reflexivity|].
+      split; [exact G'|]. split; [exact N'|]. split; [|apply cr_new; exact Hsu]. intros o E. injection E as <-. split; [exact H'|].
       eexists. split; [exact Hi' | reflexivity].
-    - do 3 eexists. split; [reflexivity|]. split; [exact Hg|]. split; [apply nc_refl|]. intros o E. discriminate.
+    - do 3 eexists. split; [reflexivity|]. split; [exact Hg|]. split; [apply nc_refl|].
+      split; [intros o E; discriminate | apply cr_same; reflexivity].
   Qed.
 
   Lemma start_found_G base c s q k o ob cks :
@@ -147,7 +210,7 @@ Section Rider.
     (forall s' res cks', start_found c s q k o ob cks = (s', res, cks') ->
        In CkDelete cks' \/ res = Err EExpiredID -> DEL s k) ->
     exists s' res cks', start_found c s q k o ob cks = (s', res, cks') /\ G base s' /\ nc s s' /\
-      sres_ok s' res (ck_found k cks cks').
+      sres_ok s' res (ck_found k cks cks') /\ cr s s' cks cks'.
   Proof.
     intros Hg Ho Hid Hsc Hdel. pose proof Hg as (I & K & P & Hq).
     assert (F : ffnd s) by (eapply inv_ffnd; exact I). assert (Hp : plan s = []) by apply F.
@@ -158,8 +221,9 @@ Section Rider.
       + destruct (sat_add (c_idexpiry c) (c_grace c) <=? since (r_created (o_rec ob)) (now s))%Z eqn:Hb.
         * assert (E : start_found c s q k o ob cks = (fst (cache_delete s k), Err EExpiredID, cks)).
           { apply sf_backstop; [exact Hp | exact Hv | unfold isref; rewrite Hr; reflexivity | exact Hb]. }
-          destruct (cdel_G _ _ k Hg (Hdel _ _ _ E (or_intror eq_refl))) as (G' & N' & _).
-          do 3 eexists. split; [exact E|]. split; [exact G'|]. split; [exact N'|]. intros o' E'. discriminate.
+          destruct (cdel_G _ _ k Hg (Hdel _ _ _ E (or_intror eq_refl))) as (G' & N' & Ed & _).
+          do 3 eexists. split; [exact E|]. split; [exact G'|]. split; [exact N'|].
+          split; [intros o' E'; discriminate | apply cr_same; exact (ed_supply _ _ _ Ed)].
         * rewrite (sf_ref _ _ _ _ _ _ _ t Hv Hr Hb).
           assert (Hok : hok 0 ND s o) by (split; [lia | exists ob; split; [exact Ho | intros []]]).
           destruct (follow_inv 0 base ND (S (N.to_nat (supply s))) s o I Hok) as (s1 & fr & E & I1 & Hfr).
@@ -167,21 +231,25 @@ Section Rider.
           rewrite E in *. cbn [fst snd] in *.
           destruct fr as [o'|e|e]; [| | contradiction].
           -- destruct (hupd_qt s1 o' (upd_req s1 q) (fun _ => eq_refl) K1) as [Q2 K2].
-             do 3 eexists. split; [reflexivity|]. split; [|split].
+             do 3 eexists. split; [reflexivity|]. split; [|split; [|split]].
              ++ eapply G_qt; [apply inv_hupd; [exact I1 | reflexivity] | exact K2 | exact (qt_trans _ _ _ Q1 Q2) | exact Hg].
              ++ apply nc_qt. exact (qt_trans _ _ _ Q1 Q2).
              ++ intros o2 E2. injection E2 as <-. pose proof (Hh1 o' eq_refl) as Hh'.
                 split; [eapply hg_qt; eassumption|]. destruct Hh' as (ob' & Ho' & _). rewrite Ho'.
                 exists (o_id ob'). split; [|right; left; reflexivity].
                 rewrite (hid_qt _ _ o' Q2); unfold hid; rewrite Ho'; [reflexivity | discriminate].
+             ++ destruct (Hh1 o' eq_refl) as (ob' & Ho' & _). rewrite Ho'.
+                apply cr_old; [rewrite hupd_supply; exact (qt_supply _ _ Q1)|].
+                destruct (i_fh _ _ _ _ _ I1 o' ob' (Nat.le_0_l o') Ho') as [Hkd _]. rewrite (qt_supply _ _ Q1) in Hkd.
+                destruct (o_id ob'); exact Hkd.
           -- do 3 eexists. split; [reflexivity|]. split; [eapply G_qt; eassumption|].
-             split; [apply nc_qt; exact Q1 | intros o2 E2; discriminate].
+             split; [apply nc_qt; exact Q1|]. split; [intros o2 E2; discriminate | apply cr_same; exact (qt_supply _ _ Q1)].
       + assert (Hh : hg s o) by (exists ob; split; [exact Ho | split; [exact Hr | exact Hs]]).
         destruct (c_idexpiry c <=? since (r_created (o_rec ob)) (now s))%Z eqn:Ha.
         * rewrite (sf_rotate _ _ _ _ _ _ _ F Ho Hv Hr Ha).
-          destruct (regen_G _ _ _ _ Hg Ho Hh) as (G1 & N1 & H1 & Hi1). pose proof G1 as (I1 & K1 & _).
+          destruct (regen_G _ _ _ _ Hg Ho Hh) as (G1 & N1 & H1 & Hi1 & Hsu1). pose proof G1 as (I1 & K1 & _).
           destruct (hupd_qt (regen s o ob) o (upd_req (regen s o ob) q) (fun _ => eq_refl) K1) as [Q2 K2].
-          do 3 eexists. split; [reflexivity|]. split; [|split].
+          do 3 eexists. split; [reflexivity|]. split; [|split; [|split; [|apply cr_new; rewrite hupd_supply; exact Hsu1]]].
           -- eapply G_qt; [apply inv_hupd; [exact I1 | reflexivity] | exact K2 | exact Q2 | exact G1].
           -- eapply nc_trans; [exact N1 | apply nc_qt; exact Q2].
           -- intros o2 E2. injection E2 as <-. split; [eapply hg_qt; eassumption|].
@@ -190,11 +258,12 @@ Section Rider.
         * destruct (sat_add (c_idexpiry c) (c_grace c) <=? since (r_created (o_rec ob)) (now s))%Z eqn:Hb.
           -- assert (E : start_found c s q k o ob cks = (fst (cache_delete s k), Err EExpiredID, cks)).
              { apply sf_backstop; [exact Hp | exact Hv | rewrite Ha; apply andb_false_r | exact Hb]. }
-             destruct (cdel_G _ _ k Hg (Hdel _ _ _ E (or_intror eq_refl))) as (G' & N' & _).
-             do 3 eexists. split; [exact E|]. split; [exact G'|]. split; [exact N'|]. intros o' E'. discriminate.
+             destruct (cdel_G _ _ k Hg (Hdel _ _ _ E (or_intror eq_refl))) as (G' & N' & Ed & _).
+             do 3 eexists. split; [exact E|]. split; [exact G'|]. split; [exact N'|].
+             split; [intros o' E'; discriminate | apply cr_same; exact (ed_supply _ _ _ Ed)].
           -- rewrite (sf_plain _ _ _ _ _ _ _ Hv Hr Ha Hb).
              destruct (hupd_qt s o (upd_req s q) (fun _ => eq_refl) K) as [Q2 K2].
-             do 3 eexists. split; [reflexivity|]. split; [|split].
+             do 3 eexists. split; [reflexivity|]. split; [|split; [|split; [|apply cr_same; apply hupd_supply]]].
              ++ eapply G_qt; [apply inv_hupd; [exact I | reflexivity] | exact K2 | exact Q2 | exact Hg].
              ++ apply nc_qt. exact Q2.
              ++ intros o2 E2. injection E2 as <-. split; [eapply hg_qt; eassumption|].
@@ -206,49 +275,55 @@ Section Rider.
         - destruct (create_session (fst (cache_delete s k)) q) as [[s2 res2] nck] eqn:Ec.
           apply (Hdel _ _ _ E). left. apply in_or_app. right. left. reflexivity.
         - apply (Hdel _ _ _ E). left. apply in_or_app. right. left. reflexivity. }
-      destruct (cdel_G _ _ k Hg Hd) as (G1 & N1 & _). rewrite E.
+      destruct (cdel_G _ _ k Hg Hd) as (G1 & N1 & Ed1 & _). rewrite E. pose proof (ed_supply _ _ _ Ed1) as Hsu1.
       destruct (q_create q).
       + rewrite create_session_ff by (eapply inv_ffnd; apply G1).
-        destruct (created_G _ _ q G1) as (G' & N' & H' & Hi'). do 3 eexists. split; [reflexivity|].
-        split; [exact G'|]. split; [eapply nc_trans; eassumption|]. intros o2 E2. injection E2 as <-. split; [exact H'|].
-        eexists. split; [exact Hi' | right; right; reflexivity].
-      + do 3 eexists. split; [reflexivity|]. split; [exact G1|]. split; [exact N1|]. intros o2 E2. discriminate.
+        destruct (created_G _ _ q G1) as (G' & N' & H' & Hi' & Hsu'). do 3 eexists. split; [reflexivity|].
+        split; [exact G'|]. split; [eapply nc_trans; eassumption|]. rewrite Hsu1 in *. split.
+        * intros o2 E2. injection E2 as <-. split; [exact H'|]. eexists. split; [exact Hi' | right; right; reflexivity].
+        * apply cr_delnew. exact Hsu'.
+      + do 3 eexists. split; [reflexivity|]. split; [exact G1|]. split; [exact N1|].
+        split; [intros o2 E2; discriminate | apply cr_del; exact Hsu1].
   Qed.
 
   Lemma start_G base s q : G base s ->
     (forall k s' res cks, q_cookie q = CKey k -> start s q = (s', res, cks) ->
        In CkDelete cks \/ res = Err EExpiredID -> forall s1, qt s s1 -> Q s1 -> DEL s1 k) ->
-    exists s' res cks, start s q = (s', res, cks) /\ G base s' /\ nc s s' /\ sres_ok s' res (ck_start q cks).
+    exists s' res cks, start s q = (s', res, cks) /\ G base s' /\ nc s s' /\ sres_ok s' res (ck_start q cks) /\
+      cr s s' [] cks.
   Proof.
     intros Hg Hdel. pose proof Hg as (I & K & P & Hq). rewrite start_eq in *.
-    assert (Hnone : forall s0 pre, G base s0 -> nc s s0 -> pre = [] \/ pre = [CkDelete] ->
-              exists s' res cks, start_none s0 q pre = (s', res, cks) /\ G base s' /\ nc s s' /\ sres_ok s' res (ck_start q cks)).
-    { intros s0 pre G0 N0 Hpre. destruct (start_none_G base s0 q pre G0) as (s' & res & cks & E' & G' & N' & H').
-      exists s', res, cks. split; [exact E'|]. split; [exact G'|]. split; [eapply nc_trans; eassumption|].
-      intros o Eo. destruct (H' o Eo) as (Hh & k0 & Hk & ->). split; [exact Hh|]. exists k0. split; [exact Hk|].
-      destruct Hpre as [-> | ->]; [right; left; reflexivity | right; right; reflexivity]. }
-    destruct (q_cookie q) as [|k|n] eqn:Eq; try (apply Hnone; [exact Hg | apply nc_refl | left; reflexivity]).
+    assert (Hnone : forall s0 pre, G base s0 -> nc s s0 -> supply s0 = supply s -> pre = [] \/ pre = [CkDelete] ->
+              exists s' res cks, start_none s0 q pre = (s', res, cks) /\ G base s' /\ nc s s' /\ sres_ok s' res (ck_start q cks) /\
+                cr s s' [] cks).
+    { intros s0 pre G0 N0 Hsu Hpre. destruct (start_none_G base s0 q pre G0) as (s' & res & cks & E' & G' & N' & H' & C').
+      exists s', res, cks. split; [exact E'|]. split; [exact G'|]. split; [eapply nc_trans; eassumption|]. split.
+      - intros o Eo. destruct (H' o Eo) as (Hh & k0 & Hk & ->). split; [exact Hh|]. exists k0. split; [exact Hk|].
+        destruct Hpre as [-> | ->]; [right; left; reflexivity | right; right; reflexivity].
+      - apply (cr_shift s s0 s' pre cks Hsu) in C'. destruct C' as (mid & -> & Hm). exists (pre ++ mid). split; [reflexivity|].
+        rewrite flv_app. destruct Hpre as [-> | ->]; exact Hm. }
+    destruct (q_cookie q) as [|k|n] eqn:Eq; try (apply Hnone; [exact Hg | apply nc_refl | reflexivity | left; reflexivity]).
     destruct (cache_get_inv _ _ _ _ _ k I) as (s1 & r & E & I1 & Hr).
     destruct (cache_get_qt _ _ _ _ k I K) as (Q1 & K1 & Hobj). rewrite E in *. cbn [fst snd] in *.
     assert (G1 : G base s1) by (eapply G_qt; eassumption).
     destruct r as [o|].
     - destruct Hr as [_ [ob (Ho & _ & _ & _)]]. destruct (Hobj o eq_refl) as (ob' & Ho' & Hid & Hs).
       rewrite Ho in Ho'. injection Ho' as <-. rewrite Ho in *.
-      destruct (start_found_G base (conf s) s1 q k o ob [] G1 Ho Hid) as (s' & res & cks & E' & G' & N' & H').
+      destruct (start_found_G base (conf s) s1 q k o ob [] G1 Ho Hid) as (s' & res & cks & E' & G' & N' & H' & C').
       + exists ob. split; [exact Ho | rewrite Hid; exact Hs].
       + intros s' res cks E' Hor. apply (Hdel k s' res cks eq_refl E' Hor s1 Q1). apply G1.
       + exists s', res, cks. split; [exact E'|]. split; [exact G'|].
-        split; [eapply nc_trans; [apply nc_qt; exact Q1 | exact N']|].
+        split; [eapply nc_trans; [apply nc_qt; exact Q1 | exact N']|]. split; [|exact (cr_shift _ _ _ _ _ (qt_supply _ _ Q1) C')].
         intros o2 Eo. destruct (H' o2 Eo) as (Hh & k0 & Hk & Hck). split; [exact Hh|]. exists k0. split; [exact Hk|].
         destruct Hck as [[-> ->]|[->| ->]]; [left; split; [reflexivity | exact Eq] | right; left; reflexivity | right; right; reflexivity].
-    - apply Hnone; [exact G1 | apply nc_qt; exact Q1 | right; reflexivity].
+    - apply Hnone; [exact G1 | apply nc_qt; exact Q1 | exact (qt_supply _ _ Q1) | right; reflexivity].
   Qed.
 
   (* ----------------------------------------------------- handler operations *)
 
   Lemma regenerate_G base s o : G base s -> hg s o ->
     exists s', regenerate s o = (s', Ok tt, [CkLive (KGen (supply s))]) /\ G base s' /\ nc s s' /\ hg s' o /\
-      hid s' o = Some (KGen (supply s)).
+      hid s' o = Some (KGen (supply s)) /\ supply s' = (supply s + 1)%N.
   Proof.
     intros Hg Hh. pose proof Hh as (ob & Ho & _). pose proof Hg as (I & _).
     rewrite (regenerate_ff _ _ _ (inv_ffnd _ _ _ _ _ I) Ho). eexists. split; [reflexivity|].
@@ -257,7 +332,7 @@ Section Rider.
 
   Lemma login_G base s o u ex : G base s -> hg s o ->
     exists s' n, login s o u ex = (s', Ok tt, [CkLive (KGen n)]) /\ G base s' /\ nc s s' /\ hg s' o /\
-      hid s' o = Some (KGen n).
+      hid s' o = Some (KGen n) /\ n = supply s /\ supply s' = (supply s + 1)%N.
   Proof.
     intros Hg Hh. pose proof Hg as (I & K & P & Hq). pose proof (hg_hok _ _ Hh) as Hok. unfold login.
     assert (Hpre : exists s1, (if ex then logout_user s (fst u) else let '(s0, _) := logout s o in (s0, Ok tt)) = (s1, Ok tt)
@@ -284,26 +359,30 @@ Section Rider.
     assert (Q13 : qt s (cset s2 o ob2)) by (eapply qt_trans; [exact Q1|]; eapply qt_trans; eassumption).
     assert (G3 : G base (cset s2 o ob2)) by (eapply G_qt; eassumption).
     assert (H3 : hg (cset s2 o ob2) o) by (eapply hg_qt; eassumption).
-    destruct (regenerate_G _ _ _ G3 H3) as (s' & E' & G' & N' & H' & Hi'). rewrite E'.
-    exists s'. eexists. split; [reflexivity|]. split; [exact G'|]. split; [|split; [exact H' | exact Hi']].
-    eapply nc_trans; [apply nc_qt; exact Q13 | exact N'].
+    destruct (regenerate_G _ _ _ G3 H3) as (s' & E' & G' & N' & H' & Hi' & Hsu'). rewrite E'.
+    exists s'. eexists. split; [reflexivity|]. split; [exact G'|].
+    split; [eapply nc_trans; [apply nc_qt; exact Q13 | exact N']|]. split; [exact H'|]. split; [exact Hi'|].
+    rewrite (qt_supply _ _ Q13) in Hsu'. split; [exact (qt_supply _ _ Q13) | exact Hsu'].
   Qed.
 
   Lemma do_sop_G base s o hc op : G base s -> hg s o ->
     (op = SDestroy -> forall ob, hget s o = Some ob -> DEL s (o_id ob)) ->
     exists s' r cks, do_sop s o hc op = (s', r, cks) /\ G base s' /\ nc s s' /\ (op <> SDestroy -> hg s' o) /\ nr s' o /\
-      (op <> SDestroy -> Forall islive cks) /\ lastl (hid s o) cks = hid s' o.
+      (op <> SDestroy -> Forall islive cks) /\ lastl (hid s o) cks = hid s' o /\
+      cr s s' [] cks /\ (forall m, In (CkLive (KGen m)) cks -> (supply s <= m)%N).
   Proof.
     intros Hg Hh Hd. pose proof Hg as (I & K & P & Hq). pose proof Hh as (ob & Ho & Hr & Hs).
     assert (Hp : plan s = []) by apply (i_plan _ _ _ _ _ I).
     (* the common ending of the operations that are quiet and set no cookie *)
     assert (Hquiet : forall s' (r : sres), G base s' -> qt s s' ->
               exists s'' r' cks, (s', r, @nil cookie) = (s'', r', cks) /\ G base s'' /\ nc s s'' /\ (op <> SDestroy -> hg s'' o) /\
-                nr s'' o /\ (op <> SDestroy -> Forall islive cks) /\ lastl (hid s o) cks = hid s'' o).
+                nr s'' o /\ (op <> SDestroy -> Forall islive cks) /\ lastl (hid s o) cks = hid s'' o /\
+                cr s s'' [] cks /\ (forall m, In (CkLive (KGen m)) cks -> (supply s <= m)%N)).
     { intros s' r G' Q'. do 3 eexists. split; [reflexivity|]. split; [exact G'|]. split; [apply nc_qt; exact Q'|].
       assert (H' : hg s' o) by (eapply hg_qt; eassumption).
       split; [intros _; exact H'|]. split; [apply hg_nr; exact H'|]. split; [intros _; constructor|].
-      cbn [lastl fold_left]. symmetry. apply hid_qt; [exact Q'|]. unfold hid. rewrite Ho. discriminate. }
+      split; [cbn [lastl fold_left]; symmetry; apply hid_qt; [exact Q'|]; unfold hid; rewrite Ho; discriminate|].
+      split; [apply cr_same; exact (qt_supply _ _ Q') | intros m []]. }
     assert (Hupd : forall f, (forall r, r_ref (f r) = r_ref r) ->
                G base (hupd s o f) /\ qt s (hupd s o f) /\ hg (hupd s o f) o).
     { intros f Hf. destruct (hupd_qt s o f Hf K) as [Q1 K1].
@@ -337,20 +416,23 @@ Section Rider.
           apply Hquiet; assumption.
         * apply Hquiet; [exact Hg | apply qt_refl].
       + apply Hquiet; [exact Hg | apply qt_refl].
-    - destruct (login_G _ _ _ u ex Hg Hh) as (s' & n & E & G' & N' & H' & Hi'). rewrite E.
+    - destruct (login_G _ _ _ u ex Hg Hh) as (s' & n & E & G' & N' & H' & Hi' & -> & Hsu'). rewrite E.
       do 3 eexists. split; [reflexivity|]. split; [exact G'|]. split; [exact N'|]. split; [intros _; exact H'|].
-      split; [apply hg_nr; exact H'|]. split; [intros _; repeat constructor | rewrite Hi'; reflexivity].
+      split; [apply hg_nr; exact H'|]. split; [intros _; repeat constructor|]. split; [rewrite Hi'; reflexivity|].
+      split; [apply (cr_new s s' []); exact Hsu' | intros m [Em|[]]; injection Em as <-; lia].
     - destruct (logout_inv _ _ _ _ _ I (hg_hok _ _ Hh)) as (s' & E & I' & _).
       destruct (logout_qt s o Hp K (hg_sc _ _ Hh)) as [Q1 K1]. rewrite E in *. cbn [fst] in *.
       apply Hquiet; [eapply G_qt; eassumption | exact Q1].
-    - destruct (regenerate_G _ _ _ Hg Hh) as (s' & E & G' & N' & H' & Hi'). rewrite E.
+    - destruct (regenerate_G _ _ _ Hg Hh) as (s' & E & G' & N' & H' & Hi' & Hsu'). rewrite E.
       do 3 eexists. split; [reflexivity|]. split; [exact G'|]. split; [exact N'|]. split; [intros _; exact H'|].
-      split; [apply hg_nr; exact H'|]. split; [intros _; repeat constructor | rewrite Hi'; reflexivity].
+      split; [apply hg_nr; exact H'|]. split; [intros _; repeat constructor|]. split; [rewrite Hi'; reflexivity|].
+      split; [apply (cr_new s s' []); exact Hsu' | intros m [Em|[]]; injection Em as <-; lia].
     - rewrite (destroy_ff _ _ _ _ Hp Ho).
-      destruct (cdel_G _ _ (o_id ob) Hg (Hd eq_refl ob Ho)) as (G' & N' & _ & Hheap).
+      destruct (cdel_G _ _ (o_id ob) Hg (Hd eq_refl ob Ho)) as (G' & N' & Ed & Hheap).
       do 3 eexists. split; [reflexivity|]. split; [exact G'|]. split; [exact N'|]. split; [intros Hne; contradiction|].
       split; [eapply nr_heap; [exact Hheap | apply hg_nr; exact Hh]|]. split; [intros Hne; contradiction|].
-      cbn [lastl fold_left]. symmetry. apply hid_heap. exact Hheap.
+      split; [cbn [lastl fold_left]; symmetry; apply hid_heap; exact Hheap|].
+      split; [apply (cr_del s _ []); exact (ed_supply _ _ _ Ed) | intros m [Em|[]]; discriminate].
   Qed.
 
   (* ---------------------------------------------------------------- scripts *)
@@ -361,34 +443,45 @@ Section Rider.
   Lemma run_script_G base hc : forall ops s o, G base s -> hg s o -> FOK (now s) -> dperm o ops ->
     exists s' rs cks, run_script s o hc ops = (s', rs, cks) /\ G base s' /\ nc s s' /\
       (~ In SDestroy (firstn (length rs) ops) -> hg s' o /\ Forall islive cks) /\ nr s' o /\
-      lastl (hid s o) cks = hid s' o.
+      lastl (hid s o) cks = hid s' o /\
+      (exists c, supply s' = (supply s + N.of_nat c)%N /\ flv (supply s) cks = nseq (supply s) c) /\
+      (forall m, In (CkLive (KGen m)) cks -> (supply s <= m)%N).
   Proof.
     induction ops as [|op t IH]; intros s o Hg Hh Hf Hd; cbn [run_script].
     - do 3 eexists. split; [reflexivity|]. split; [exact Hg|]. split; [apply nc_refl|].
-      split; [intros _; split; [exact Hh | constructor]|]. split; [apply hg_nr; exact Hh | reflexivity].
-    - destruct (do_sop_G base s o hc op Hg Hh) as (s1 & r & cks & E & G1 & N1 & H1 & R1 & L1 & C1).
+      split; [intros _; split; [exact Hh | constructor]|]. split; [apply hg_nr; exact Hh|]. split; [reflexivity|].
+      split; [exists 0; split; [cbn [N.of_nat]; lia | reflexivity] | intros m []].
+    - destruct (do_sop_G base s o hc op Hg Hh) as (s1 & r & cks & E & G1 & N1 & H1 & R1 & L1 & C1 & D1 & M1).
       { intros -> ob Ho. destruct Hh as (ob' & Ho' & _ & Hs). rewrite Ho in Ho'. injection Ho' as <-.
         apply (Hd (or_introl eq_refl) s ob); [apply Hg | exact Ho | exact Hs]. }
       rewrite E. destruct N1 as [Nn Nc].
-      destruct (fire_due_G _ _ G1) as (G2 & N2 & H2 & _); [rewrite Nn; exact Hf|].
+      destruct (fire_due_G _ _ G1) as (G2 & N2 & H2 & Ef); [rewrite Nn; exact Hf|].
+      assert (D2 : exists c, supply (fire_due s1) = (supply s + N.of_nat c)%N /\ flv (supply s) cks = nseq (supply s) c).
+      { rewrite (ef_supply _ _ Ef). destruct D1 as (mid & -> & [[A B]|[A B]]); cbn [app].
+        - exists 0. split; [cbn [N.of_nat]; lia | exact B].
+        - exists 1. split; [cbn [N.of_nat]; lia | exact B]. }
       assert (Hheap : heap (fire_due s1) = heap s1) by (destruct G1 as (I1 & _); apply (HistInv3.fire_due_inv _ _ _ _ I1)).
       assert (R2 : nr (fire_due s1) o) by (eapply nr_heap; eassumption).
       assert (C2 : lastl (hid s o) cks = hid (fire_due s1) o) by (rewrite (hid_heap _ _ o Hheap); exact C1).
       assert (N12 : nc s (fire_due s1)) by (eapply nc_trans; [split; eassumption | exact N2]).
       match goal with |- context [if ?c then _ else _] => destruct c eqn:Estop end.
       + do 3 eexists. split; [reflexivity|]. split; [exact G2|]. split; [exact N12|].
-        split; [|split; [exact R2 | exact C2]]. cbn [length firstn]. intro Hn.
+        split; [|split; [exact R2 | split; [exact C2 | split; [exact D2 | exact M1]]]]. cbn [length firstn]. intro Hn.
         assert (Hop : op <> SDestroy) by (intros ->; apply Hn; left; reflexivity).
         split; [apply H2; apply H1; exact Hop | apply L1; exact Hop].
       + assert (Hop : op <> SDestroy) by (intros ->; discriminate).
-        destruct (IH (fire_due s1) o G2 (H2 o (H1 Hop))) as (s' & rs & cks' & E' & G' & N' & H' & R' & C').
+        destruct (IH (fire_due s1) o G2 (H2 o (H1 Hop))) as (s' & rs & cks' & E' & G' & N' & H' & R' & C' & D' & M').
         { destruct N12 as [-> _]. exact Hf. }
         { intros Hin. apply Hd. right. exact Hin. }
         rewrite E'. do 3 eexists. split; [reflexivity|]. split; [exact G'|].
-        split; [eapply nc_trans; eassumption|]. split; [|split; [exact R'|]].
+        split; [eapply nc_trans; eassumption|]. split; [|split; [exact R'|split; [|split]]].
         * cbn [length firstn]. intro Hn. destruct H' as [Hh' Hl']; [intro Hin; apply Hn; right; exact Hin|].
           split; [exact Hh' | apply Forall_app; split; [apply L1; exact Hop | exact Hl']].
         * rewrite lastl_app, C2. exact C'.
+        * destruct D2 as (c1 & S1 & F1). destruct D' as (c2 & S2 & F2). exists (c1 + c2). split; [rewrite S2, S1; lia|].
+          rewrite flv_app, nseq_app, F1. f_equal. rewrite <- S1, <- F2. apply flv_ge; [lia | exact M'].
+        * intros m Hin. apply in_app_or in Hin. destruct Hin as [Hin|Hin]; [exact (M1 m Hin)|].
+          pose proof (M' m Hin). destruct D2 as (c1 & S1 & _). lia.
   Qed.
 
   (* ----------------------------------------------------------- request body *)
@@ -401,11 +494,11 @@ Section Rider.
       (forall k r, st0 = Some (k, r) -> r_ref r = None) /\ (forall k r, fin = Some (k, r) -> r_ref r = None).
   Proof.
     intros Hg Hf Hdel Hdp. unfold req_body.
-    destruct (start_G base s q Hg Hdel) as (s2 & res & cks & E & G2 & N2 & H2). rewrite E.
+    destruct (start_G base s q Hg Hdel) as (s2 & res & cks & E & G2 & N2 & H2 & _). rewrite E.
     destruct (fire_due_G _ _ G2) as (G3 & N3 & H3 & _); [destruct N2 as [-> _]; exact Hf|].
     assert (N23 : nc s (fire_due s2)) by (eapply nc_trans; eassumption).
     destruct res as [[o|]|e|e].
-    - destruct (run_script_G base (had_cookie q) script (fire_due s2) o G3 (H3 o (proj1 (H2 o eq_refl)))) as (s3 & rs & cks' & E' & G' & N' & _ & R' & _).
+    - destruct (run_script_G base (had_cookie q) script (fire_due s2) o G3 (H3 o (proj1 (H2 o eq_refl)))) as (s3 & rs & cks' & E' & G' & N' & _ & R' & _ & _ & _).
       { destruct N23 as [-> _]. exact Hf. }
       { apply Hdp. }
       cbv zeta. rewrite E'. do 6 eexists. split; [reflexivity|]. split; [exact G'|]. split; [eapply nc_trans; eassumption|].
